@@ -74,7 +74,8 @@ def _blocks(tier):
 
 def k3_shapes(tier):
     out = []
-    for blocks, collide in _blocks(tier):
+    nquick = len(_blocks('quick'))
+    for li, (blocks, collide) in enumerate(_blocks(tier)):
         n = len(blocks)
         scheds = list(itertools.product('nhf', repeat=n - 1))
         if n > 2:
@@ -83,6 +84,9 @@ def k3_shapes(tier):
                 scheds = scheds[::2]
         if tier == 'quick' and collide and n == 2:
             scheds = [('f',)]
+        if li >= nquick:
+            # the larger thorough-only chains: two schedules each (sized to keep the tier within tens of minutes)
+            scheds = [scheds[(li * 2) % len(scheds)], scheds[(li * 2 + 4) % len(scheds)]]
         for s in scheds:
             out.append({'blocks': blocks, 'flush': list(s) + ['n'], 'reopen': s[0] == 'h', 'collide': collide})
     # a history-only (or full) flush right after the LAST block, then the final full flush at the same height
